@@ -31,7 +31,7 @@ impl Sub for Seq {
         "seq"
     }
     fn cases(&self, tier: Tier) -> u32 {
-        tier.pick(2400, 60000)
+        tier.pick(2400, 30000)
     }
     fn max_shrink_iters(&self) -> u32 {
         1500
